@@ -192,7 +192,7 @@ func runC24Bearer(c c24Case, out *lib.Outcome) {
 		out.Violate(lib.Keyf("C24", "bearer-accepted", c.Variant), "Authorization %q accepted as %s, but it is not \"Bearer \"+token for any configured token %q", c.Header, who, c.Tokens)
 	case want >= 0 && err != nil:
 		out.Violate("C24/bearer-rejected-exact", "Authorization %q is \"Bearer \"+token #%d but was rejected: %v", c.Header, want, err)
-	case want >= 0 && got != ctxs[want]:
+	case want >= 0 && (got == nil || got.Principal != ctxs[want].Principal || got.Domain != ctxs[want].Domain || got.Authenticated != ctxs[want].Authenticated):
 		who := "<nil context>"
 		if got != nil {
 			who = got.Principal
